@@ -9,6 +9,7 @@ MODULE = "TraceAutomata"
 
 
 def generate(rng, tier, shard, nshards):
+    event = aops.variant_event(rng, skip=())
     n = 24 if tier == "quick" else 240
     L = 2
     sig = ["a", "b"]
@@ -43,28 +44,28 @@ def generate(rng, tier, shard, nshards):
                                     "epseps" if any(r[1] == r[2] == "" for r in A["arcs"] + B["arcs"]) else "",
                                     "cyclic" if not acyc else ""] if x) or "plain"
         st, st2 = rng.choice(aops.STATE_STYLES), rng.choice(aops.STATE_STYLES)
-        yield aops.event("tcompose", {"sr": srn, "A": A, "B": B, "sigmaA": sig, "sigmaM": sig, "sigmaB": sig, "L": L,
+        yield event("tcompose", {"sr": srn, "A": A, "B": B, "sigmaA": sig, "sigmaM": sig, "sigmaB": sig, "L": L,
                                       "style": st, "style2": st2}, site="FST.__matmul__", feat=feat, timeout=60)
         T = A
         for x in fam.strings(sig, 2):
             for y in fam.strings(sig, 2):
                 if rng.random() < 0.4:
-                    yield aops.event("tcall", {"sr": srn, "T": T, "x": list(x), "y": list(y), "style": st}, site="FST.__call__", feat=feat)
+                    yield event("tcall", {"sr": srn, "T": T, "x": list(x), "y": list(y), "style": st}, site="FST.__call__", feat=feat)
         base = {"sr": srn, "T": T, "sigmaA": sig, "sigmaB": sig, "L": L, "style": st}
         for fn in ("transpose", "project0", "project1"):
-            yield aops.event("tsame", dict(base, fn=fn), site=f"FST.{fn}", feat=feat)
-        yield aops.event("tsame", dict(base, fn="prune", keepA=rng.choice([["a", ""], ["a", "b", ""], ["b"]]),
+            yield event("tsame", dict(base, fn=fn), site=f"FST.{fn}", feat=feat)
+        yield event("tsame", dict(base, fn="prune", keepA=rng.choice([["a", ""], ["a", "b", ""], ["b"]]),
                                        keepB=rng.choice([["a", "b", ""], ["b", ""], ["a"]])), site="FST.prune_to_alphabet", feat=feat)
         fix = [rng.choice(sig) for _ in range(rng.randint(0, 2))]
-        yield aops.event("tsame", dict(base, fn="xsec_in", fix=fix), site="FST(x,None)", feat=feat)
-        yield aops.event("tsame", dict(base, fn="xsec_out", fix=fix), site="FST(None,y)", feat=feat)
+        yield event("tsame", dict(base, fn="xsec_in", fix=fix), site="FST(x,None)", feat=feat)
+        yield event("tsame", dict(base, fn="xsec_out", fix=fix), site="FST(None,y)", feat=feat)
         M = aops.rand_wfsa(rng, srn, nS=2, narcs=3, eps_acyclic=True)
-        yield aops.event("tsame", {"sr": srn, "fn": "diag", "M": M, "sigmaA": sig, "sigmaB": sig, "L": L}, site="FST.diag", feat="ctor")
+        yield event("tsame", {"sr": srn, "fn": "diag", "M": M, "sigmaA": sig, "sigmaB": sig, "L": L}, site="FST.diag", feat="ctor")
         xs = [rng.choice(sig) for _ in range(rng.randint(0, 2))]
-        yield aops.event("tsame", {"sr": srn, "fn": "from_string", "xs": xs, "sigmaA": sig, "sigmaB": sig, "L": L}, site="FST.from_string", feat="ctor")
+        yield event("tsame", {"sr": srn, "fn": "from_string", "xs": xs, "sigmaA": sig, "sigmaB": sig, "L": L}, site="FST.from_string", feat="ctor")
         pairs = [[[rng.choice(sig) for _ in range(rng.randint(0, 2))], [rng.choice(sig) for _ in range(rng.randint(0, 2))]]
                  for _ in range(rng.randint(1, 3))]
-        yield aops.event("tsame", {"sr": srn, "fn": "from_pairs", "pairs": pairs, "sigmaA": sig, "sigmaB": sig, "L": L}, site="FST.from_pairs", feat="ctor")
+        yield event("tsame", {"sr": srn, "fn": "from_pairs", "pairs": pairs, "sigmaA": sig, "sigmaB": sig, "L": L}, site="FST.from_pairs", feat="ctor")
 
 
 def selftests(events, rng):
